@@ -67,6 +67,17 @@ def systematic(tier):
                     cases.append({'program': program,
                                   'schedule': [{'act': first, 'on': [event, k]}, {'act': 'kill', 'at': ticks + 3}],
                                   'opts': {}, 'origin': f'systematic:{name}:listener'})
+        # a kill after (or inside) a burst of alternating pause/play requests at one position
+        for pos in positions:
+            for repeats in (1, 2, 3):
+                for tail in ((), ('pause',)):
+                    burst = ['pause', 'play'] * repeats + list(tail)
+                    for kill_at in range(len(burst) + 1):
+                        kinds = burst[:kill_at] + ['kill'] + burst[kill_at:]
+                        if kill_at not in (0, len(burst)) and repeats == 3:
+                            continue
+                        cases.append({'program': program, 'schedule': [{'act': kind, 'at': pos} for kind in kinds],
+                                      'opts': {}, 'origin': f'systematic:{name}:burst'})
         cases.append({'program': program, 'schedule': [{'act': 'cancel', 'at': 0}], 'opts': {}})
         for pos in positions:
             cases.append({'program': program, 'schedule': [{'act': 'cancel', 'at': pos}], 'opts': {}})
